@@ -9,7 +9,14 @@ def main():
     ap = argparse.ArgumentParser()
     ap.add_argument("prop")
     ap.add_argument("--tier", default=os.environ.get("VERIF_TIER", "quick"), choices=["quick", "thorough"])
-    ap.add_argument("--seed", type=int, default=int(os.environ.get("VERIF_SEED", "0") or 0))
+    def seed_of(x):
+        # any string is a seed: integers as they are, anything else through a stable hash
+        try:
+            return int(x)
+        except (TypeError, ValueError):
+            import zlib
+            return zlib.crc32(str(x).encode())
+    ap.add_argument("--seed", type=seed_of, default=seed_of(os.environ.get("VERIF_SEED", "0") or 0))
     ap.add_argument("--replay")
     a = ap.parse_args()
     mod = importlib.import_module("props." + a.prop.lower())
